@@ -6,7 +6,7 @@ ASSUME Anchors
 
 HK(n) == Norm(<<n, 100>>)
 R(n, d) == Norm(<<n, d>>)
-AllModes == {"unitless", "concplain", "units", "scaled", "scaledT"}
+AllModes == {"unitless", "concplain", "units", "scaled", "scaledT", "uarray", "qarray"}
 P1(f, Ts) == { [fn |-> f, a |-> [NoArgs EXCEPT !.T = HK(t)]] : t \in Ts }
 (* the same relations with their optional arguments passed explicitly (documented default value, *)
 (* or another eta20): the value must not change / must scale with eta20                           *)
@@ -70,6 +70,10 @@ Pts_q ==
     \cup WithAtol(InvPts({30, 50}, {29300}), {R(1, 1000000), R(1, 10)}) \cup Explicit(InvPts({30}, {29815, 29300}))
     \cup WithOpts(InvPts({30}, {29300, 33000, 27000}), "on", "default") \cup InvPts({30}, {29815, 33000})
     \* falsy-but-valid values: Celsius scale (Tz = 0) incl. T = 0, another zero, P = 0 bar, w = 0, c = 0, D = 0, z = 0
+    \* second audit: Henry instance history / explicit units keyword, T0 forwarded through the inverse
+    \cup WithVia(HenryPts({"henry_H", "henry_c"}, {1, 4}, {29000, 31000}, {R(1, 1)}), "reuse")
+    \cup WithVia(HenryPts({"henry_H", "henry_P"}, {2, 5}, {29000}, {R(1, 4)}), "unitskw")
+    \cup Explicit(InvPts({30, 50}, {29300, 27315}))
     \cup WithTz(P1("water_density", {0, 398, 400, 2500, 4000, 4001, -1}), QZero)
     \cup WithTz(P1("water_density", {100, 500}), R(1, 1))
     \cup WithTz(AcidPts({50, 0}, {0, 1985, 5000, 5001}), QZero)
